@@ -130,6 +130,11 @@ def r_leg_link(ck: Checker) -> None:
     (ck.holds if ok else ck.violation)("R-LEG-LINK", ai, ai.node, what, **({} if ok else {"construct": "_attach_inner: child link / registration not recognised or wrong"}))
 
     rc = ck.repo.func(LNODE, f"{CLS}._replace_child")
+    seqs = [norm(st.targets[0]) for st in walk_body(rc.node.body) if isinstance(st, ast.Assign) and isinstance(st.targets[0], ast.Name)
+            and norm(st.value) == "getattr(self, field.name)"]
+    if len(set(seqs)) != 1:
+        raise Unsupported("_replace_child: the local holding the original sequence (getattr(self, field.name)) was not identified", rc.node)
+    osq = seqs[0]
     leaves = decision_tree([st for st in strip_docstring(rc.node.body) if not (isinstance(st, ast.If) and "_reset_content_id" in norm(st))], max_atoms=6)
     bad = []
     k_idx, k_new = k_none("index"), k_none("new")
@@ -146,16 +151,16 @@ def r_leg_link(ck: Checker) -> None:
             shift = [s for s in lf.stmts if isinstance(s, ast.For)]
             from ..normalize import resolve_path
             ok = False
-            if len(shift) == 1 and norm(shift[0].iter) == "orig_seq[index + 1:]" and isinstance(shift[0].target, ast.Name):
+            if len(shift) == 1 and norm(shift[0].iter) == f"{osq}[index + 1:]" and isinstance(shift[0].target, ast.Name):
                 sib = shift[0].target.id
                 sbody = [norm(x) for x in resolve_path(shift[0].body)]
                 ok = f"{sib}._set_parent(self, field, {sib}.parent_index - 1)" in sbody
             if not ok:
                 bad.append("removing a sequence element does not shift the later siblings' indices by -1")
-            if not any("[*orig_seq[:index], *orig_seq[index + 1:]]" in s for s in st):
+            if not any(f"[*{osq}[:index], *{osq}[index + 1:]]" in s for s in st):
                 bad.append("removed element is not cut out of the sequence")
         if in_seq and a.get(k_new) is False:
-            if not any("[*orig_seq[:index], new, *orig_seq[index + 1:]]" in s for s in st):
+            if not any(f"[*{osq}[:index], new, *{osq}[index + 1:]]" in s for s in st):
                 bad.append("replacement is not stored at the same index of the sequence")
         if a.get(k_idx) is True and "setattr(self, field.name, new)" not in st:
             bad.append("single child field is not set to the new child")
